@@ -57,6 +57,17 @@ func (h *Handler) healthcheck(ctx context.Context, mustReport bool) (err error) 
 	var activeUps []Upstream
 	var errs []error
 	for _, status := range h.upstreams {
+		if roundIsOver(ctx) {
+			// The time of this round is used up, most likely by the probes of
+			// the preceding upstreams.  Don't consider an upstream failed
+			// without having probed it and keep its current status.
+			if status.lastFailedHealthcheck.IsZero() {
+				activeUps = append(activeUps, status.upstream)
+			}
+
+			continue
+		}
+
 		inBackoff, ckErr := h.healthcheckUpstream(ctx, status, req, mustReport)
 		if inBackoff {
 			continue
@@ -79,6 +90,20 @@ func (h *Handler) healthcheck(ctx context.Context, mustReport bool) (err error) 
 	}
 
 	return nil
+}
+
+// roundIsOver returns true if the context of a healthcheck round is done or its
+// deadline has passed.  The deadline is checked explicitly, because a probe
+// that gets no response ends at that very moment, when the context may not have
+// been cancelled by its timer yet.
+func roundIsOver(ctx context.Context) (ok bool) {
+	if ctx.Err() != nil {
+		return true
+	}
+
+	deadline, hasDeadline := ctx.Deadline()
+
+	return hasDeadline && !time.Now().Before(deadline)
 }
 
 // newProbeReq returns a new request message for given domain.
